@@ -28,6 +28,7 @@ struct Ctx {
     std::vector<Conn> conns; std::vector<Cb> cbs;
     // buffered state captured for a stream that is being erased in this call
     bool snap; long chunks, bytes; std::string bufjson[2];
+    int ignore;      // 0 none, 1 client data, 2 server data (Stream::ignore_*_data called on every new stream)
 };
 static Ctx* G = 0;
 
@@ -72,6 +73,7 @@ static void on_new(Stream& s) {
     s.client_data_callback([](Stream& x) { on_data(x, true); });
     s.server_data_callback([](Stream& x) { on_data(x, false); });
     s.stream_closed_callback([](Stream& x) { on_closed(x); });
+    if (G->ignore == 1) s.ignore_client_data(); else if (G->ignore == 2) s.ignore_server_data();      // the scenario's "ignore" setting
 }
 static void on_term(Stream& s, StreamFollower::TerminationReason r) {
     int role; int ci = conn_of(s, role);
@@ -107,8 +109,9 @@ static void scenario(const vh::Json& sc, vh::Out& out, vh::Rng& rng, const vh::A
     make_conns(ctx.conns, mode, rng);
     for (size_t i = 0; i < ctx.conns.size(); ++i) { ctx.conns[i].isn[0] = pick_isn(rng); ctx.conns[i].isn[1] = pick_isn(rng); }
     bool attach = sc["attach"].truth();
+    const std::string ign = sc.has("ignore") ? sc["ignore"].str() : "none"; ctx.ignore = ign == "client" ? 1 : ign == "server" ? 2 : 0;
     long KA = 10, maxChunks = 2, maxBytes = 6;
-    out.begin("\"attach\":" + std::string(attach ? "true" : "false") + ",\"keepAlive\":10,\"maxChunks\":2,\"maxBytes\":6,\"mode\":" + std::to_string(mode % 6));
+    out.begin("\"attach\":" + std::string(attach ? "true" : "false") + ",\"ignore\":\"" + ign + "\",\"keepAlive\":10,\"maxChunks\":2,\"maxBytes\":6,\"mode\":" + std::to_string(mode % 6));
     StreamFollower fol;
     fol.new_stream_callback(&on_new);
     fol.stream_termination_callback(&on_term);
